@@ -7,12 +7,12 @@
     An account is an (exchange, holder) pair (indices into the configured lists; the model encodes it as
     exchange * 100000 + holder, hence [holders_ok]: holder indices are below 100000).
     Vocabulary ([acquired_by], [sent_by], [received_by], [acct_touched], [holder_total], [holder_net],
-    [unsold], [outs_consistent], [no_dust_fee], [no_cut]): Model/ComputedSpec.v.
-    Proofs: Proofs/BalanceProofs.v, Proofs/C07Proofs.v, Proofs/ReconcileProofs.v. *)
+    [unsold], [outs_consistent], [intras_consistent], [fees_nonneg], [no_cut]): Model/ComputedSpec.v.
+    Proofs: Proofs/BalanceProofs.v, Proofs/C07Proofs.v, Proofs/ReconcileProofs.v, Proofs/TransferFee.v. *)
 From Coq Require Import List ZArith Bool Lia Sorted.
 From RP2V Require Import Base.Prelude Base.Time Base.Dec Model.Types Model.Generated Model.Txn Model.Matcher Model.MatchSpec
   Model.MatchWf Model.FracSpec Model.Pipeline Model.Computed Model.ComputedSpec
-  Proofs.FilterProofs Proofs.PipelineWf Proofs.C07Proofs Proofs.ReconcileProofs.
+  Proofs.FilterProofs Proofs.PipelineWf Proofs.C07Proofs Proofs.TransferFee Proofs.ReconcileProofs.
 Import ListNotations.
 Open Scope Z_scope.
 
@@ -69,13 +69,15 @@ Proof. exact c07_holders_add_up. Qed.
     [pipeline_wf] for histories that went through the constructors -- see the next theorem) and the
     matcher run succeeds; no to-date cut ([no_cut]: the tax computation always covers the whole history);
     a supplied crypto_out_with_fee column equals amount + fee ([outs_consistent]; otherwise refuted:
-    C07_reconciliation_needs_consistent_outs); the transfer fee is sent - received ([intras_consistent],
-    guaranteed by the constructor); no transfer fee whose fiat value vanishes at 13 decimals
-    ([no_dust_fee]; otherwise refuted, finding F8: C07_reconciliation_dust_refuted). *)
+    C07_reconciliation_needs_consistent_outs); the transfer fee is sent - received and not negative ([intras_consistent],
+    [fees_nonneg]: both guaranteed by the constructor, and absent from the end-to-end theorem below).
+    Nothing is assumed about small transfer fees: IntraTransaction.is_taxable taxes every transfer whose crypto fee is > 0
+    (C03_transfer_rule_from_source), so every fee the balances lose is taken from a lot.  (Under the rule before the repair
+    of finding F8 this failed for fees worth less than 5e-14: C07_reconciliation_dust_refuted.) *)
 Theorem C07_reconciliation : forall allow to_day exs hos sched t fs bl,
   fractions_of gen_always_repush sched t = Ok fs ->
   (forall evs, taxable_events t = Ok evs -> wf (t_ins t) sched (map event_of evs)) ->
-  outs_consistent t -> intras_consistent t -> no_dust_fee t -> no_cut to_day t ->
+  outs_consistent t -> intras_consistent t -> fees_nonneg t -> no_cut to_day t ->
   balances allow to_day exs hos t = Ok bl ->
   sumZ (map b_final bl) = unsold (t_ins t) fs.
 Proof. exact c07_reconciliation. Qed.
@@ -86,7 +88,7 @@ Theorem C07_reconciliation_from_rows : forall allow to_day exs hos sched h t fs 
   in_rows_increasing h -> amounts_positive h -> NoDup (map fst sched) ->
   (forall evs, taxable_events t = Ok evs -> hist_same_instant_same_year evs /\ hist_sched_covers sched evs) ->
   fractions_of gen_always_repush sched t = Ok fs ->
-  outs_consistent t -> no_dust_fee t -> no_cut to_day t ->
+  outs_consistent t -> no_cut to_day t ->
   balances allow to_day exs hos t = Ok bl ->
   sumZ (map b_final bl) = unsold (t_ins t) fs.
 Proof. exact c07_reconciliation_hist. Qed.
@@ -96,21 +98,25 @@ Theorem C07_unsold_is_sum_of_remainders : forall lots fs,
   unsold lots fs = sumZ (map (rem_after lots fs) (seq 0 (length lots))).
 Proof. exact unsold_rem_after. Qed.
 
-(** finding F8: with a dust transfer fee every other hypothesis holds and the balances are 1e-11 short of the lots *)
+(** finding F8 (repaired): under the previous transfer-fee rule ([intra_is_taxable_fiat]: fiat value of the fee > 0 at 13
+    decimals) every hypothesis holds for a history with a dust transfer fee and the balances are 1e-11 short of the lots.
+    Stated on the pipeline under that explicit rule ([fractions_of_by]), so it compiles on every tree; under the rule of the
+    source the same history reconciles ([c07_dust_fee_reconciles_now], Proofs/ReconcileProofs.v) *)
 Theorem C07_reconciliation_dust_refuted : exists h sched t fs bl,
-  build h = Ok t /\ fractions_of gen_always_repush sched t = Ok fs /\ balances false 100000 [[69; 48]; [69; 49]] [[72; 48]; [72; 49]] t = Ok bl /\
-  outs_consistent t /\ intras_consistent t /\ no_cut 100000 t /\
+  build h = Ok t /\ fractions_of_by intra_is_taxable_fiat gen_always_repush sched t = Ok fs /\
+  balances false 100000 [[69; 48]; [69; 49]] [[72; 48]; [72; 49]] t = Ok bl /\
+  outs_consistent t /\ intras_consistent t /\ fees_nonneg t /\ no_cut 100000 t /\
   sumZ (map b_final bl) = unsold (t_ins t) fs - 1.
 Proof. exact c07_reconciliation_dust_refuted. Qed.
 
 Theorem C07_reconciliation_needs_consistent_outs : exists h sched t fs bl,
   build h = Ok t /\ fractions_of gen_always_repush sched t = Ok fs /\ balances false 100000 [[69; 48]; [69; 49]] [[72; 48]; [72; 49]] t = Ok bl /\
-  no_dust_fee t /\ no_cut 100000 t /\ sumZ (map b_final bl) <> unsold (t_ins t) fs.
+  fees_nonneg t /\ no_cut 100000 t /\ sumZ (map b_final bl) <> unsold (t_ins t) fs.
 Proof. exact c07_reconciliation_needs_consistent_outs. Qed.
 
 (** Non-vacuity (Proofs/ReconcileProofs.v, history A of Proofs/L4Examples.v: two exchanges, two holders, a
     fee-bearing transfer, income, eight transactions): [tA_holders_ok], [tA_balances] (three accounts),
-    [hA_rows_increasing], [hA_amounts_positive], [hA_events_ok], [tA_outs_consistent], [tA_no_dust], [tA_no_cut]
+    [hA_rows_increasing], [hA_amounts_positive], [hA_events_ok], [tA_outs_consistent], [tA_fees_nonneg], [tA_no_cut]
     establish every hypothesis; [c07_reconciliation_instance] is C07_reconciliation_from_rows applied to it
     (both sides 2.8 coins: [c07_reconciliation_value], holder totals 1.8 and 1). *)
 
